@@ -38,8 +38,8 @@ type Pong struct {
 
 // Dir: a map of itself.
 type Dir struct {
-	Name string         `json:"name"`
-	Sub  map[string]Dir `json:"sub,omitempty"`
+	Name string          `json:"name"`
+	Sub  map[string]Dir  `json:"sub,omitempty"`
 	Ptrs map[string]*Dir `json:"ptrs,omitempty"`
 }
 
@@ -64,7 +64,7 @@ type Holder struct {
 		Key  string  `json:"key"`
 		Back *Holder `json:"back,omitempty"`
 	} `json:"items,omitempty"`
-	Pair [2]*Holder `json:"pair"`
+	Pair *[2]Holder `json:"pair,omitempty"`
 }
 
 // Shared: one named, non-recursive struct type used by several fields (sibling re-use).
@@ -98,8 +98,8 @@ type Clash struct {
 
 // Stamp: standard-library-typed and byte-slice fields in a named type.
 type Stamp struct {
-	At   time.Time  `json:"at"`
-	Opt  *time.Time `json:"opt,omitempty"`
+	At  time.Time  `json:"at"`
+	Opt *time.Time `json:"opt,omitempty"`
 }
 
 // Raw: a byte-slice field in a named type.
